@@ -11,7 +11,7 @@ while read -r patch props; do
   [ -z "$patch" ] && continue
   case "$patch" in \#*) continue;; esac
   [ -z "$props" ] && props=$ALL
-  git -C $REPO checkout -q -- . ; git -C $REPO apply $patch || { echo "$patch NOAPPLY" >> $OUT; continue; }
+  git -C $REPO checkout -q -- . ; git -C $REPO apply $(realpath $patch) || { echo "$patch NOAPPLY" >> $OUT; continue; }
   line="$patch"
   for p in $props; do
     bin/vsim check -p $p -budget $BUDGET > /tmp/matrix.$$.log 2>&1; rc=$?
